@@ -1,5 +1,11 @@
 ---- MODULE RobustMC ----
 (* case emission for the C02 replays: token streams (ParserLoop) *)
 EXTENDS ParserLoop, Json
-EmitInput == (pc = "load1") => PrintT(ToJson([toks |-> input]))
+\* BAD stands for any token the lexer cannot read; every spelling of it must leave the parsers terminating:
+\* a lone '>', a name with an escape that is not two hex digits ('#G0', '##', '#' at the end of the name), a hex
+\* string with a non-hex digit, an unbalanced ')', a lone brace
+BadForms == {"gt", "nameesc", "namehash", "nameend", "hexbad", "rparen", "brace"}
+HasBad == \E i \in 1..Len(input) : input[i] = "BAD"
+EmitInput == (pc = "load1") => IF HasBad THEN \A b \in BadForms : PrintT(ToJson([toks |-> input, bad |-> b]))
+                                ELSE PrintT(ToJson([toks |-> input, bad |-> "gt"]))
 ====
